@@ -207,6 +207,11 @@ class Impl:
         if c == 'fit':
             f = Fit(solar_system=None)
             self.fits[int(t[1])] = f
+            # item views obtained once and kept: they must keep following the racks
+            if not hasattr(self, 'views'):
+                self.views = {}
+            self.views[int(t[1])] = {'high': f.modules.high.items(), 'mid': f.modules.mid.items(),
+                                     'low': f.modules.low.items(), 'all': f.modules.items()}
             self.reg(int(t[2]), f.character)
             return 'ok'
         if c == 'solsys':
@@ -390,12 +395,25 @@ class Impl:
                 flid = str(k)
         skillmap = ','.join('%d>%s' % (sk._type_id, self.iid(sk)) for sk in
                             sorted(fit.skills, key=lambda x: x._type_id))
+        stale = ''
+        views = getattr(self, 'views', {}).get(f)
+        if views:
+            everything = []
+            for k in ('high', 'mid', 'low'):
+                want = [x for x in getattr(fit.modules, k) if x is not None]
+                everything += want
+                v = views[k]
+                if list(v) != want or len(v) != len(want) or any(x not in v for x in want):
+                    stale += ' STALE-VIEW(%s)' % k
+            va = views['all']
+            if sorted(map(id, va)) != sorted(map(id, everything)) or len(va) != len(everything):
+                stale += ' STALE-VIEW(modules)'
         return ('fit %d ship=%s character=%s stance=%s beacon=%s skills=%s skillmap=%s implants=%s boosters=%s '
-                'subsystems=%s rigs=%s drones=%s fighters=%s high=[%s] mid=[%s] low=[%s] solsys=%s fleet=%s') % (
+                'subsystems=%s rigs=%s drones=%s fighters=%s high=[%s] mid=[%s] low=[%s] solsys=%s fleet=%s%s') % (
             f, self.iid(fit.ship), self.iid(fit.character), self.iid(fit.stance), self.iid(fit.effect_beacon),
             s(fit.skills), skillmap, s(fit.implants), s(fit.boosters), s(fit.subsystems), s(fit.rigs),
             s(fit.drones), s(fit.fighters), r(fit.modules.high), r(fit.modules.mid), r(fit.modules.low),
-            ssid, flid)
+            ssid, flid, stale)
 
     # -- implementation-only observations (not understood by the model driver) -------
     def stats_dump(self, f):
